@@ -195,13 +195,14 @@ Proof.
 Qed.
 
 Lemma run_end t inp :
-  t_incl_ign t = false -> t_allow_eof t = true -> spec_next inp = LexEnd -> ends_in_comment false inp = false ->
+  t_incl_ign t = false -> t_allow_eof t = true -> spec_next inp = LexEnd ->
   exists t1, run (tk_reset t) inp = (t1, []) /\ t_type t1 = TT_eof.
 Proof.
-  intros Hii Hae Hs Hc. rewrite (reset_form t Hii).
+  intros Hii Hae Hs. rewrite (reset_form t Hii).
   rewrite (proj1 (skip_run (t_allow_eof t) inp (t_code t) (t_hexch t) (t_digits t))).
   unfold spec_next in Hs. destruct (skip_ignorable false inp) as [|b r] eqn:Es.
-  - rewrite Hc, run_nil, Hae. cbn. eexists. split; reflexivity.
+  - (* since fix dd6235ea of /repo a comment ended by the end of the input also gives tt_eof *)
+    destruct (ends_in_comment false inp); rewrite run_nil, Hae; cbn; eexists; split; reflexivity.
   - exfalso. cbn [spec_token_at] in Hs.
     repeat match type of Hs with
            | (if ?c then _ else _) = _ => destruct c
@@ -231,28 +232,28 @@ Proof.
   rewrite Hr in Hn. cbn [fst snd] in Hn. exists t1, np, last. split; assumption.
 Qed.
 
-(* end of input: only white space and terminated comments remain => tt_eof *)
+(* end of input: only white space and comments remain (the last comment may be ended by the end of the
+   input instead of an end-of-line marker) => tt_eof *)
 Lemma next_token_end_lemma : forall inp t pos,
   t_incl_ign t = false -> t_allow_eof t = true -> t_state t <> TS_inline_image ->
-  spec_next inp = LexEnd -> ends_in_comment false inp = false ->
+  spec_next inp = LexEnd ->
   exists t1 newpos last, next_token 0 t inp pos = (t1, [], newpos, last) /\ t_type t1 = TT_eof.
 Proof.
-  intros inp t pos Hii Hae Hst Hs Hc.
+  intros inp t pos Hii Hae Hst Hs.
   destruct (next_token_run t inp pos Hst) as (np & last & Hn).
-  destruct (run_end t inp Hii Hae Hs Hc) as (t1 & Hr & Hi).
+  destruct (run_end t inp Hii Hae Hs) as (t1 & Hr & Hi).
   rewrite Hr in Hn. cbn [fst snd] in Hn. exists t1, np, last. split; assumption.
 Qed.
 
 (* the hypothesis of the whole-input statement: no token starts in a regular run containing a raw VT
-   (known finding D11) and the input does not end inside a comment (known finding
-   C03:comment-terminated-by-EOF) *)
+   (known finding D11).  (Until fix dd6235ea of /repo it also had to exclude inputs ending inside a comment.) *)
 Fixpoint lex_ok_fuel (fuel : nat) (inp : list N) : bool :=
   match fuel with
   | O => true
   | Datatypes.S f =>
       match spec_next inp with
       | LexTok _ rest => forallb (fun b => negb (b =? 11)) (head_run inp) && lex_ok_fuel f rest
-      | LexEnd => negb (ends_in_comment false inp)
+      | LexEnd => true
       | LexInvalid => true
       end
   end.
@@ -278,8 +279,7 @@ Proof.
   cbn [lex_spec_fuel] in Hs. cbn [lex_ok_fuel] in Hok. cbn [model_lex_fuel].
   destruct (next_token_run t inp pos Hst) as (np & last & Hn). rewrite Hn.
   destruct (spec_next inp) as [|tok rest|] eqn:Esn; [| |discriminate].
-  - apply negb_true_iff in Hok.
-    destruct (run_end t inp Hii Hae Esn Hok) as (t1 & Hr & Hty). rewrite Hr. cbn [fst snd]. rewrite Hty. exact Hs.
+  - destruct (run_end t inp Hii Hae Esn) as (t1 & Hr & Hty). rewrite Hr. cbn [fst snd]. rewrite Hty. exact Hs.
   - apply andb_true_iff in Hok. destruct Hok as [Hvt Hok]. apply no_vt_forallb in Hvt.
     destruct (run_token t inp tok rest Hb Hii Esn Hvt) as (t1 & Hr & Hi). rewrite Hr. cbn [fst snd].
     rewrite (interp_not_eof t1 tok Hi), Hi.
@@ -291,7 +291,7 @@ Proof.
     + unfold is_ready in C. intros X. rewrite X in C. discriminate.
 Qed.
 
-(* lex_complete, whole input (the full statement minus exactly the two finding classes) *)
+(* lex_complete, whole input (the full statement minus exactly the finding class D11) *)
 Lemma lex_complete_partial_lemma : forall inp toks,
   bytes_ok inp -> lex_ok inp = true -> lex_spec inp = Some toks -> model_lex inp = Some toks.
 Proof.
@@ -310,12 +310,31 @@ Proof.
   - vm_compute. discriminate.
 Qed.
 
-(* second finding: a comment ended by the end of input is read as a bad token. Witness "%". *)
-Lemma comment_at_eof_refuted_lemma :
-  exists inp, bytes_ok inp /\ ~ In 11 inp /\ lex_spec inp = Some [] /\ model_lex inp = None.
+(* formerly comment_at_eof_refuted (finding C03:comment-terminated-by-EOF, repaired in /repo by dd6235ea):
+   an input whose last comment is ended by the end of the input is read to the end like any other; in
+   particular "%" alone, and "1 %x", are read as the specification says *)
+Lemma comment_at_eof_lemma : forall inp,
+  bytes_ok inp -> ~ In 11 inp -> ends_in_comment false inp = true -> lex_spec inp = Some [] ->
+  model_lex inp = Some [].
 Proof.
-  exists [37]. split; [repeat constructor|]. split; [intros [X|[]]; discriminate|]. split; vm_compute; reflexivity.
+  intros inp Hb Hvt Hc Hs. unfold lex_spec in Hs. cbn [lex_spec_fuel] in Hs.
+  destruct (spec_next inp) as [|tok rest|] eqn:Esn; [| |discriminate].
+  - unfold model_lex. cbn [model_lex_fuel].
+    destruct (next_token_end_lemma inp tk_parser 0 eq_refl eq_refl ltac:(discriminate) Esn) as (t1 & np & last & Hn & Hty).
+    rewrite Hn, Hty. reflexivity.
+  - exfalso. clear Hb Hvt Hc Esn.
+    assert (G : forall f r acc, acc <> [] -> lex_spec_fuel f r acc <> Some []).
+    { induction f as [|f IH]; intros r acc Hne X; [discriminate|]. cbn [lex_spec_fuel] in X.
+      destruct (spec_next r) as [|t2 r2|]; [|apply (IH r2 (t2 :: acc)); [discriminate|exact X]|discriminate].
+      injection X as X. rewrite rev'_rev in X. apply (f_equal (@rev ptoken)) in X. rewrite rev_involutive in X.
+      cbn in X. contradiction. }
+    exact (G _ _ [tok] ltac:(discriminate) Hs).
 Qed.
+
+Lemma comment_at_eof_witness_lemma :
+  lex_spec [37] = Some [] /\ model_lex [37] = Some [] /\
+  lex_spec [49; 32; 37; 120] = Some [PInt 1] /\ model_lex [49; 32; 37; 120] = Some [PInt 1].
+Proof. repeat split; vm_compute; reflexivity. Qed.
 
 (* ================= C04 part: progress and absence of std::logic_error ================= *)
 Lemma in_top_flags t ch : t_in_token (in_top t ch) = t_in_token t /\ t_before (in_top t ch) = t_before t.
